@@ -437,7 +437,7 @@ func tierOf(h *Harness, tier string) TierBounds {
 	// multiply its schedules without producing a violation in this harness: the
 	// run then ends INCONCLUSIVE for it and goes on with the next harness)
 	if b.DeadlineS == 0 {
-		b.DeadlineS = 200
+		b.DeadlineS = 300
 		if tier == "thorough" {
 			b.DeadlineS = 3000
 		}
